@@ -7,7 +7,7 @@ import NumbatModel.Model.QtyProg
                            E ::= (num BITS) | (unit name:m3:1/1) | (var I) | (loc I) | (call F E…) | (neg E) | (add E E) | (sub E E)
                                | (mul E E) | (div E E) | (pow E num/den) | (conv E E) | (lt E E) | (gt E E)
                                | (le E E) | (ge E E) | (eq E E) | (ne E E) | (and E E) | (or E E) | (not E)
-                               | (true) | (false) | (if E E E)
+                               | (true) | (false) | (if E E E) | (lst CHAIN) | (head E) | (tail E) | (cons E E) | (len E)
 Answer: per definition the raw value of the new global (`q …` as `show_quantity`, `bool`) or `fn`, joined by
 ` ; `, ended by `err …` if a definition fails. -/
 open NumbatModel.Qty
@@ -31,6 +31,26 @@ def parseP (st : St) : Nat → List String → Option (PExpr Float × List Strin
       | _ => none
     | "(" :: "true" :: ")" :: rest => some (.blit true, rest)
     | "(" :: "false" :: ")" :: rest => some (.blit false, rest)
+    | "(" :: "lst" :: rest => do
+      let (a, rest) ← parseP st fuel rest
+      match rest with
+      | ")" :: rest => pure (.lst a, rest)
+      | _ => none
+    | "(" :: "head" :: rest => do
+      let (a, rest) ← parseP st fuel rest
+      match rest with
+      | ")" :: rest => pure (.head a, rest)
+      | _ => none
+    | "(" :: "tail" :: rest => do
+      let (a, rest) ← parseP st fuel rest
+      match rest with
+      | ")" :: rest => pure (.tail a, rest)
+      | _ => none
+    | "(" :: "len" :: rest => do
+      let (a, rest) ← parseP st fuel rest
+      match rest with
+      | ")" :: rest => pure (.len a, rest)
+      | _ => none
     | "(" :: "neg" :: rest => do
       let (a, rest) ← parseP st fuel rest
       match rest with
@@ -71,6 +91,7 @@ def parseP (st : St) : Nat → List String → Option (PExpr Float × List Strin
         | "eq" => pure (.eq a b, rest)
         | "ne" => pure (.ne a b, rest)
         | "arg" => pure (.arg a b, rest)
+        | "cons" => pure (.cons a b, rest)
         | "and" => pure (.and a b, rest)
         | "or" => pure (.or a b, rest)
         | _ => none
@@ -116,14 +137,28 @@ def parseProg (st : St) : Nat → List String → Option (List (PStmt Float))
     let ds ← parseProg st fuel rest
     pure (d :: ds)
 
+mutual
+/-- as `numbat::verif::c01::describe_raw_value`: quantities inside a list are parenthesised -/
+def showElem (st : St) : PVal Float → String
+  | .q x => "(" ++ showQ st x ++ ")"
+  | .b _ => "bool"
+  | .list vs => "List<" ++ showElems st vs ++ ">"
+def showElems (st : St) : List (PVal Float) → String
+  | [] => ""
+  | [v] => showElem st v
+  | v :: vs => showElem st v ++ ";" ++ showElems st vs
+end
+
 def showPVal (st : St) : PVal Float → String
   | .q x => showQ st x
   | .b _ => "bool"
+  | .list vs => "List<" ++ showElems st vs ++ ">"
 
 def showPErr : PErr → String
   | .q .incompatible => "err incompatible"
   | .q .nonRational => "err nonrational"
   | .q .divZero => "err divzero"
+  | .emptyList => "err emptylist"
   | .stuck => "err stuck"
   | .outOfFuel => "err fuel"
 
